@@ -180,6 +180,7 @@ fn directed(ctx: &Ctx, rep: &mut Report) {
     }
     let spec = Stmt::Upd(Upd {
         with: None,
+                alias: None,
         table: "t1".into(),
         sets: vec![("a".into(), X::Int(1011))],
         from: vec![From_::Table("t2".into(), None), From_::Table("t3".into(), None)],
